@@ -44,7 +44,9 @@ def builtin_norm_2(x):
     import numpy as np
     if np.isscalar(x):
         return abs(x)
-    return np.linalg.norm(x, 2)
+    # The 2-norm of the entries, whatever the shape of x (as in the generated
+    # Fortran). On a two-dimensional array, norm(x, 2) is the spectral norm.
+    return np.linalg.norm(np.ravel(x), 2)
 
 
 def builtin_norm_inf(x):
